@@ -8,7 +8,8 @@ use crate::env::Env;
 use crate::eval::load_toplevel_items;
 use crate::garden_type::Type;
 use crate::parser::ast::{
-    Block, Expression, FunInfo, IdGenerator, LetDestination, Symbol, SyntaxId, TypeHint, TypeName,
+    Block, Expression, Expression_, FunInfo, IdGenerator, LetDestination, Symbol, SyntaxId,
+    TypeHint, TypeName,
 };
 use crate::parser::parse_toplevel_items;
 use crate::parser::vfs::Vfs;
@@ -149,11 +150,22 @@ impl AnnotationFinder<'_> {
 
     /// The inferred return type of a function body: the type of its
     /// final expression, or `Unit` for an empty body.
+    ///
+    /// Returns `None` if the body also returns early, because the
+    /// type of the final expression is then not the whole story.
     fn body_return_ty(&self, body: &Block) -> Option<Type> {
-        match body.exprs.last() {
-            Some(expr) => self.id_to_ty.get(&expr.id).cloned(),
-            None => Some(Type::unit()),
+        let ty = match body.exprs.last() {
+            Some(expr) => self.id_to_ty.get(&expr.id).cloned()?,
+            None => Type::unit(),
+        };
+
+        let mut return_finder = ReturnFinder::default();
+        return_finder.visit_block(body);
+        if return_finder.returns_value || (return_finder.returns_unit && !ty.is_unit()) {
+            return None;
         }
+
+        Some(ty)
     }
 }
 
@@ -183,7 +195,19 @@ impl Visitor for AnnotationFinder<'_> {
         hint: Option<&TypeHint>,
         expr: &Expression,
     ) {
-        if hint.is_none() {
+        // The inferred type of a closure is based on its final
+        // expression, so it's only accurate if the closure doesn't
+        // return early.
+        let is_inaccurate_closure = match &expr.expr_ {
+            Expression_::FunLiteral(fun_info) => {
+                let mut return_finder = ReturnFinder::default();
+                return_finder.visit_block(&fun_info.body);
+                return_finder.returns_value
+            }
+            _ => false,
+        };
+
+        if hint.is_none() && !is_inaccurate_closure {
             if let LetDestination::Symbol(symbol) = dest {
                 self.consider_symbol(symbol);
             }
@@ -192,6 +216,32 @@ impl Visitor for AnnotationFinder<'_> {
         // Recurse into the bound expression, which may contain
         // lambdas or nested lets.
         self.visit_expr(expr);
+    }
+}
+
+/// Finds the `return` expressions of a function body.
+#[derive(Default)]
+struct ReturnFinder {
+    /// Is there a `return x`?
+    returns_value: bool,
+    /// Is there a plain `return`?
+    returns_unit: bool,
+}
+
+impl Visitor for ReturnFinder {
+    fn visit_expr(&mut self, expr: &Expression) {
+        match &expr.expr_ {
+            Expression_::Return(Some(_)) => self.returns_value = true,
+            Expression_::Return(None) => self.returns_unit = true,
+            _ => {}
+        }
+
+        self.visit_expr_(&expr.expr_);
+    }
+
+    fn visit_expr_fun_literal(&mut self, _: &FunInfo) {
+        // A `return` inside a nested closure returns from that
+        // closure, not from the function we're looking at.
     }
 }
 
